@@ -1278,6 +1278,13 @@ func evalEq(st *pstate, a, b *Sym) (bool, bool) {
 		if b.C == nil && definitelyNonNil(a) {
 			return false, true
 		}
+		// the kind of a value made by reflect.MakeSlice / Append / MakeMap is fixed by the call that made it
+		if a.K == sKind && b.C != nil && b.C.Kind() == constant.Int {
+			if k, ok := madeKind(a.A); ok {
+				want, _ := constant.Int64Val(b.C)
+				return want == k, true
+			}
+		}
 		ak, bk := a.Key(), b.Key()
 		if c, ok := st.eqc[ak]; ok {
 			return c == bk, true
@@ -1796,4 +1803,19 @@ func (ps *PathSim) ApplyClosure(st *pstate, clo *Sym, args []*Sym) []*Summary {
 	})
 	ps.out = saved
 	return out
+}
+
+// madeKind: the reflect.Kind of a value that is the result of a reflect constructor (Slice = 23, Map = 21).
+func madeKind(v *Sym) (int64, bool) {
+	if v == nil || v.K != sCall {
+		return 0, false
+	}
+	f, _ := calleeOfSym(v)
+	switch {
+	case isReflectFunc(f, "MakeSlice"), isReflectFunc(f, "Append"), isReflectFunc(f, "AppendSlice"):
+		return 23, true
+	case isReflectFunc(f, "MakeMap"), isReflectFunc(f, "MakeMapWithSize"):
+		return 21, true
+	}
+	return 0, false
 }
